@@ -192,11 +192,11 @@ func (w *World) Proof(of *Node, key []byte, proofHeight int64) ([]byte, clientty
 
 // StoredAt reads a key of of's xibc store at a committed version.
 func (w *World) StoredAt(of *Node, key []byte, version int64) ([]byte, error) {
-	ms, err := of.App.CommitMultiStore().CacheMultiStoreWithVersion(version)
-	if err != nil {
-		return nil, err
+	res := of.App.Query(abci.RequestQuery{Path: fmt.Sprintf("store/%s/key", host.StoreKey), Height: version, Data: key})
+	if res.Code != 0 {
+		return nil, fmt.Errorf("query failed: code=%d log=%s", res.Code, res.Log)
 	}
-	return ms.GetKVStore(of.App.GetKey(host.StoreKey)).Get(key), nil
+	return res.Value, nil
 }
 
 // TxResult is the boundary observation of one delivered cosmos transaction.
